@@ -76,6 +76,13 @@ def directed(rng):
                 page([its.ihw(7), tdh, its.data_word(0x20, bytes([0xE0, 5] + [0] * 7)), its.tdt(1)], R.fee_id(1, 2, 0), link=2, sysid=33), ["-f", "2"]))
     res.append(("memory size below 64", R.pack(dict(R.DEFAULT, offset_to_next=64, memory_size=rng.choice([0, 1, 63]))) * 3))
     res.append(("offset_to_next larger than memory size", R.pack(dict(R.DEFAULT, offset_to_next=200, memory_size=64)) + bytes(136) + R.pack(dict(R.DEFAULT, pages_counter=1, stop_bit=1))))
+    # framing errors on packets that a filter skips (the skip loop has its own copy of the offset check)
+    for bad in (0, 1, 63, 10065, 0xFFFF):
+        good = page([its.ihw(7), tdh, its.tdt(1)], ib, link=0)
+        other = page([its.ihw(7), tdh, its.tdt(1)], R.fee_id(1, 1, 0), link=1)
+        broken = bytearray(page([its.ihw(7), tdh, its.tdt(1)], R.fee_id(1, 2, 0), link=2))
+        broken[8:10] = bad.to_bytes(2, "little")
+        res.append(("offset_to_next = %d on a packet skipped by the filter" % bad, good + other + bytes(broken) + good, ["-f", "0"]))
     res.append(("payload of 0xFF only", page([b"\xff" * 10] * 4, ib)))
     res.append(("unknown system id", page([its.ihw(7), tdh, its.tdt(1)], ib, sysid=rng.choice([0, 1, 2, 9, 40, 254]))))
     return res
